@@ -351,7 +351,7 @@ def guards(node, stop=None):
                 if isinstance(block, list) and cur in block:
                     if isinstance(par, ast.If) and par is not stop:
                         out.append((par.test, fieldname == 'body', 'if'))
-                    elif isinstance(par, ast.While) and fieldname == 'body' and par is not stop:
+                    elif isinstance(par, ast.While) and fieldname == 'body' and par is not stop and not getattr(par, '_synthetic', False):
                         out.append((par.test, True, 'while'))
                     idx = block.index(cur)
                     for prev in block[:idx]:
